@@ -130,6 +130,7 @@ type X struct {
 	unescaped map[*Term]bool // fresh objects whose address has not been stored in the heap
 	neqMemo  map[[2]int]bool
 	contained map[*Term][]*Term
+	postEnv  *Env
 }
 
 // callEvent records the symbolic result of a call to a function that was
@@ -162,6 +163,10 @@ func (x *X) warn(format string, args ...interface{}) {
 
 func (x *X) assume(guard, fact *Term, why string) {
 	if fact.IsTrue() {
+		return
+	}
+	if x.B.hasFreeBound(fact) || x.B.hasFreeBound(guard) {
+		// a side fact about a term that lives under a quantifier: cannot be stated globally
 		return
 	}
 	x.assums = append(x.assums, Assumption{Guard: guard, Fact: fact, Why: why})
